@@ -1,0 +1,46 @@
+//go:build verif
+
+package table
+
+import (
+	"os"
+
+	"github.com/lindb/lindb/pkg/fileutil"
+)
+
+// This file only exists under the build tag "verif" (add-only seam for the external verification
+// harness, check C02). Nothing here changes behaviour while no hook is installed.
+
+// VerifSetOpenHookWithFaults is VerifSetOpenHook plus a fault injector which is asked once per
+// operation (after the before-call of the hook): a non-nil error is returned to the reader cache
+// instead of performing the operation ("tableOpen": the file is not opened, EMFILE/EIO; "tableMap":
+// the opened file is not mapped, ENOMEM). nil hook or nil fault: VerifSetOpenHook(h).
+func VerifSetOpenHookWithFaults(h VerifFSHook, fault VerifFault) {
+	if h == nil || fault == nil {
+		VerifSetOpenHook(h)
+		return
+	}
+	openFileFn = func(name string) (*os.File, error) {
+		h("tableOpen", name, true)
+		if err := fault("tableOpen", name); err != nil {
+			h("tableOpen", name, false)
+			return nil, err
+		}
+		f, err := os.Open(name)
+		h("tableOpen", name, false)
+		return f, err
+	}
+	mapFunc = func(f *os.File) ([]byte, error) {
+		h("tableMap", f.Name(), true)
+		if err := fault("tableMap", f.Name()); err != nil {
+			h("tableMap", f.Name(), false)
+			// production leaves the descriptor open when the mapping fails with no data; the harness
+			// must not run out of descriptors because of its own faults
+			_ = f.Close()
+			return nil, err
+		}
+		data, err := fileutil.Map(f)
+		h("tableMap", f.Name(), false)
+		return data, err
+	}
+}
